@@ -25,6 +25,7 @@ struct vthr {
 	void *ret;
 	int state; /* 0 unused, 1 runnable, 2 finished, 3 waiting join, 4 blocked (external condition) */
 	int join_target;
+	int group;
 	unsigned last_point;
 	unsigned long last_site;
 	unsigned long steps;
@@ -62,6 +63,9 @@ static uint64_t vs_rand(void)
 uint64_t vs_random(void) { return vs_rand(); }
 
 int vs_self(void) { return self_id; }
+/* a group tag inherited by created threads (the fake MPI uses it as the rank of the thread) */
+void vs_set_group(int g) { thr[self_id].group = g; }
+int vs_group(void) { return thr[self_id].group; }
 int vs_active(void) { return active; }
 unsigned long vs_steps(void) { return steps; }
 
@@ -128,12 +132,22 @@ static void hang(const char *why)
 	_exit(4);
 }
 
+static unsigned long poll_ctr;
+static int poll_rr;
 static int pick_next(int me, int me_runnable)
 {
 	int cand[VS_MAX], n = 0;
-	for(int i = 0; i < n_thr; ++i)
+	/* threads blocked on an external condition (state 4) re-test it when they are resumed: poll them
+	 * regularly (round robin), and whenever nothing else can run */
+	int blocked[VS_MAX], nb = 0;
+	for(int i = 0; i < n_thr; ++i) {
 		if(thr[i].state == 1 && (i != me || me_runnable))
 			cand[n++] = i;
+		else if(thr[i].state == 4 && i != me)
+			blocked[nb++] = i;
+	}
+	if(nb && (!n || (++poll_ctr % 16) == 0))
+		return blocked[poll_rr++ % nb];
 	if(!n)
 		return -1;
 	if(script && script_pos < script_len) {
@@ -227,18 +241,28 @@ void vs_block_until(int (*cond)(void *), void *arg)
 	if(!active)
 		return;
 	int me = self_id;
+	unsigned long spins = 0;
 	while(!cond(arg)) {
 		thr[me].state = 4;
-		/* a blocked thread stays eligible as a last resort: it re-tests its condition */
 		int next = pick_next(me, 0);
-		thr[me].state = 1;
 		++steps;
-		if(step_budget && steps > step_budget)
+		if(step_budget && steps > step_budget) {
+			thr[me].state = 1;
 			hang("budget-blocked");
-		if(next < 0)
-			hang("deadlock");
+		}
+		/* only blocked threads are left and none of their conditions becomes true */
+		if(next < 0 || (++spins > 100000 && thr[next].state == 4)) {
+			int any_runnable = 0;
+			for(int i = 0; i < n_thr; ++i)
+				any_runnable |= thr[i].state == 1;
+			if(next < 0 || !any_runnable) {
+				thr[me].state = 1;
+				hang("deadlock");
+			}
+		}
 		hand_over(me, next);
 	}
+	thr[me].state = 1;
 }
 
 static void *trampoline(void *p)
@@ -272,6 +296,7 @@ int __wrap_pthread_create(pthread_t *p, const pthread_attr_t *a, void *(*fn)(voi
 	t->fn = fn;
 	t->arg = arg;
 	t->state = 1;
+	t->group = thr[self_id].group;
 	int r = __real_pthread_create(&t->real, a, trampoline, t);
 	if(r)
 		return r;
